@@ -1,6 +1,6 @@
 (* C13: populate_idle_qubits adds one identity gate to each idle qubit and nothing else. *)
 From Coq Require Import ZArith List Bool String.
-From Verif Require Import BGate PyVal Ast State Unroll Corr Spec Transforms TransformProofs ModuleSpec ModuleProofs FixProofs ValidProofs.
+From Verif Require Import BGate PyVal Ast State Unroll Corr Spec Transforms TransformProofs ModuleSpec ModuleProofs FixProofs ValidProofs Depth DepthModel.
 Import ListNotations.
 Open Scope Z_scope.
 
@@ -55,3 +55,13 @@ Print Assumptions C13_result_is_a_valid_program_the_visitor_leaves_as_it_is.
 Theorem C13_keeps_wellformedness p : wf_flat env0 p = true -> wf_flat env0 (populate p) = true.
 Proof. exact (populate_keeps_wellformed p). Qed.
 Print Assumptions C13_keeps_wellformedness.
+
+(* "... leaves everything else as it was": in terms of the depth counters of Props/C09.v, populate moves exactly the idle
+   qubits from 0 to 1 (each gets one `id`) and changes the counter of no other qubit and of no classical bit -- so
+   depth() is unchanged whenever the circuit has any operation, and becomes 1 on a circuit with none *)
+Theorem C13_populate_moves_exactly_the_idle_qubits_to_depth_one p r :
+  wf_flat env0 p = true ->
+  depth_after rsrc_eqb (evs_of (populate p)) r
+  = if existsb (rsrc_eqb r) (map Qr (idle_qubits p)) then 1 else depth_after rsrc_eqb (evs_of p) r.
+Proof. exact (populate_depth p r). Qed.
+Print Assumptions C13_populate_moves_exactly_the_idle_qubits_to_depth_one.
